@@ -114,6 +114,10 @@ MustSign(q, e, sn) == /\ q.wf
                       /\ \/ q.kind \in {"att", "atts"} /\ AttAdvancing(e, sn)
                          \/ q.kind = "prop" /\ PropAdvancing(e, sn)
 
+RefusedForWhatItIs(q, e) ==
+    \/ q.kind \in {"att", "atts"} /\ (e.dom # "att" \/ ~(e.t > e.s \/ (e.s = 0 /\ e.t = 0)))
+    \/ q.kind = "prop" /\ e.dom # "prop"
+    \/ q.kind \in {"gen", "multi"} /\ e.dom \in {"att", "prop"}
 Respond ==
     /\ Is("Respond")
     /\ doneP' = doneP \cup {[k |-> p.k, slot |-> p.slot] : p \in {q \in relP : q.r = Ev.r}}
@@ -124,10 +128,16 @@ Respond ==
                     THEN {<<"advancing", l, i>> : i \in {j \in 1 .. n : MustSign(q, q.ents[j], sn) /\ Ev.res[j] # "SUCCEEDED"}}
                     ELSE {}
            c08 == IF Ev.r \in DOMAIN req /\ Len(q.ents) # n THEN {<<"resplen", l>>} ELSE {}
+           \* C08 "entry i is the verdict ... for request i": a request that must be refused for what it is - whatever the history - (a
+           \* target not above its source unless both are zero, a domain of another type, a generic request under a slashable type)
+           \* is not answered SUCCEEDED; if it is, position i carries the verdict of some other request
+           c08v == IF Ev.r \in DOMAIN req /\ Len(q.ents) = n
+                     THEN {<<"misaligned", l, i>> : i \in {j \in 1 .. n : RefusedForWhatItIs(q, q.ents[j]) /\ Ev.res[j] = "SUCCEEDED"}}
+                     ELSE {}
            c06 == {<<"sigstate", l, i>> : i \in {j \in 1 .. n : (Ev.res[j] = "SUCCEEDED") # Ev.sig[j]}}
            \* any signature bytes at all (verifying or not) in a faulted request / at a faulted position
            c06f == {<<"failclosed", l, i>> : i \in {j \in 1 .. n : Ev.sig[j] /\ (<<Ev.r, 0>> \in fpos \/ <<Ev.r, j>> \in fpos)}}
-       IN bad' = bad \cup c09 \cup c06 \cup c06f \cup c08
+       IN bad' = bad \cup c09 \cup c06 \cup c06f \cup c08 \cup c08v
     /\ UNCHANGED <<relA, relP, floor, hiS, hiT, hiP, snap, req, produced, fpos>>
 
 \* C06: a dependency failed (or gave no definite answer) while request r / its entry i was processed
